@@ -26,6 +26,7 @@ fn t_strategy() -> impl Strategy<Value = usize> {
         1 => 255usize..=257,
         1 => Just(1280usize),
         1 => 64usize..=72,
+        1 => prop_oneof![Just(4097usize), Just(32768usize), Just(65535usize), Just(65534usize), 8000usize..=9000, 16380usize..=16390],
     ]
 }
 
@@ -42,6 +43,8 @@ fn strategy(kmax: u32) -> impl Strategy<Value = Case> {
         .prop_map(move |(k, t, class_a, class_b, scalar, build, seed)| {
             // bound the work: large K only with moderate T
             let t = if k > 400 { t.min(136) } else { t };
+            // wide symbols only on small blocks (bounded work per case)
+            let k = if t > 2000 { 1 + k % 12 } else { k };
             Case { k: k.min(kmax.max(260)), t, class_a, class_b, scalar, build, seed }
         })
 }
@@ -81,6 +84,7 @@ fn check(c: &Case, st: &mut Stats) -> Result<(), String> {
     let both_paths = t > 64 && t % 64 != 0;
     st.class_if(both_paths, "T>64 and T mod 64 != 0 (vector body and tail)");
     st.class_if(t % 8 != 0, "T mod 8 != 0");
+    st.class_if(t > 2000, "T > 2000");
     st.class_if(c.scalar > 1, "scalar not in {0,1}");
     st.class(&format!("build:{how:?}"));
     if both_paths && c.scalar > 1 {
@@ -197,7 +201,7 @@ fn signature(_: &Case, msg: &str) -> String {
 }
 
 pub fn run(ctx: &Ctx, rep: &mut Report) {
-    rep.rule = "generated (K in 1..=40 weighted, up to 2000 / around the dense-sparse switch 245..260; T over 1..=136, 191..193, 255..257, 1280 so that every residue modulo 8/16/32/64 occurs; data pairs A,B from {random, zero, 0xFF, one-hot, position-coded}; scalar c over all 256 weighted to 0,1,2,0x1D,0x80,0xFF; construction in {new, with_encoding_plan, unplanned dense/sparse, plan from dense/sparse}); for every source packet and ~15 repair packets (near, uniform, far ESIs, 2^24-1): pkt(A^B) = pkt(A)^pkt(B), pkt(c*A) = c*pkt(A) with c* from the polynomial multiplier, byte j of pkt_T(A) = pkt_1(column j of A); decoding the same ESI set at T and at 1 gives the same Some/None and column-wise equal bytes. Non-trivial = T > 64 with T mod 64 != 0 (vector body and scalar tail both run) and c not in {0,1}; distinct by (K,T,construction).".into();
+    rep.rule = "generated (K in 1..=40 weighted, up to 2000 / around the dense-sparse switch 245..260; T over 1..=136, 191..193, 255..257, 1280 (and, on blocks of at most 12 symbols, 4097, 8000..9000, 16380..16390, 32768, 65534, 65535) so that every residue modulo 8/16/32/64 occurs; data pairs A,B from {random, zero, 0xFF, one-hot, position-coded}; scalar c over all 256 weighted to 0,1,2,0x1D,0x80,0xFF; construction in {new, with_encoding_plan, unplanned dense/sparse, plan from dense/sparse}); for every source packet and ~15 repair packets (near, uniform, far ESIs, 2^24-1): pkt(A^B) = pkt(A)^pkt(B), pkt(c*A) = c*pkt(A) with c* from the polynomial multiplier, byte j of pkt_T(A) = pkt_1(column j of A); decoding the same ESI set at T and at 1 gives the same Some/None and column-wise equal bytes. Non-trivial = T > 64 with T mod 64 != 0 (vector body and scalar tail both run) and c not in {0,1}; distinct by (K,T,construction).".into();
     let kmax = ctx.tier.pick(600u32, 2000);
     let n = ctx.tier.pick(20_000u64, 200_000);
     rep.absorb("linearity", run_sharded("C09", "linearity", ctx.seed, n, 32, move || strategy(kmax), check, to_json, signature));
